@@ -233,6 +233,14 @@ def run(ctx):
                 ctx.count("e2e-form", 2)
                 if not same_result(z0, z1) or not same_result(z0, z2):
                     ctx.violation("monitor", "end to end: a zero switching cost gives different results as scalar 0.0 / int 0 / vector of zeros", {"cfg": {k: v for k, v in b.items()}, "form": "beta = 0"})
+            # the same forms on a run that is cut off by the iteration limit (every exit of the main loop must treat the forms alike)
+            ref1 = e2e.traced_run(dict(b, limit=1))
+            for name, cfgv in [v_ for v_ in variants if "filled" in v_[0]]:
+                ctx.count("e2e-form-cut-off")
+                r1 = e2e.traced_run(dict(cfgv, limit=1))
+                if not same_result(ref1, r1):
+                    ctx.violation("monitor", "end to end, run cut off by iteration_limit=1: %s changes the result (%s vs %s)" % (name, ref1["error"], r1["error"]),
+                                  {"cfg": {k: (v if not isinstance(v, np.ndarray) else "array") for k, v in dict(cfgv, limit=1).items()}, "form": name})
             for name, cfgv in variants:
                 ctx.count("e2e-form")
                 r = e2e.traced_run(cfgv)
